@@ -247,7 +247,7 @@ func runC07Tunnel(i int, tn c07Tunnel, c c07Case, o gwOpts, mkTarget func(user s
 		ws.Pause(false)
 		// let the backlog drain before the script goes on (a host that hangs up with megabytes still queued towards the
 		// gateway, and unread bytes of its own, would reset the connection - a harness artefact, not the gateway's doing)
-		conn.WaitBytes(len(sentH), 60*time.Second)
+		pollDataPayload(conn, len(sentH), 60*time.Second) // (payload bytes: the framing makes the raw byte count reach that number a little earlier)
 	}
 	for _, op := range tn.Ops {
 		switch op {
